@@ -22,6 +22,17 @@ import (
 //@   pure
 //@   ensures found == ufb("contains", s, sep)
 //@   ensures !found ==> before == s && after == ""
+//@   ensures found ==> before == uf("cutBefore", s, sep) && after == uf("cutAfter", s, sep)
+
+// ASSUMED (regular-expression code, outside the modelled subset): unsetField is a deterministic
+// function of its arguments. The sub-field lemmas below are stated for keys whose removal leaves
+// nothing (`unsetField(..) == ""` for every subject), i.e. for the LAST sub-field of a header.
+//@ extern github.com/ysugimoto/falco/v2/interpreter/variable.unsetField
+//@   pure
+//@   stable
+//@ extern strings.EqualFold
+//@   pure
+//@   ensures result == ufb("equalFold", s, t)
 //@ extern strings.CutSuffix
 //@   pure
 //@   ensures found == ufb("hasSuffix", s, suffix)
@@ -141,5 +152,36 @@ func lemma_resp_other_names_untouched(r *http.Response, n1, n3 string, v *value.
 	g1 = getResponseHeaderValue(r, n3)
 	unsetResponseHeaderValue(r, n1)
 	g2 = getResponseHeaderValue(r, n3)
+	return
+}
+
+// ---- sub-fields (name:key) -----------------------------------------------------------------------------
+//@ pred subName(n string) = ufb("contains", n, ":") && !ufb("hasSuffix", n, "*")
+//@ pred lastField(n string) = forall s string :: unsetField(s, uf("cutAfter", n, ":"), ",") == ""
+
+// Removing the last sub-field of a header removes the header: it then reads as not set under every
+// spelling of its name.
+// @ lemma lemma_req_unset_last_subfield [C17]
+// @   requires okReq(r) && v != nil && plainName(n1) && subName(n2) && lastField(n2) && plainName(n3)
+// @   requires uf("canon", n1) == uf("canon", uf("cutBefore", n2, ":")) && uf("canon", n3) == uf("canon", n1)
+// @   requires !ufb("equalFold", uf("cutBefore", n2, ":"), "cookie")
+// @   inline-calls
+// @   ensures [last-subfield-unset-reads-notset] g.IsNotSet && g.Value == ""
+func lemma_req_unset_last_subfield(r *http.Request, n1, n2, n3 string, v *value.String) (g *value.String) {
+	setRequestHeaderValue(r, n1, v)
+	unsetRequestHeaderValue(r, n2)
+	g = getRequestHeaderValue(r, n3)
+	return
+}
+
+// @ lemma lemma_resp_unset_last_subfield [C17]
+// @   requires okResp(r) && v != nil && plainName(n1) && subName(n2) && lastField(n2) && plainName(n3)
+// @   requires uf("canon", n1) == uf("canon", uf("cutBefore", n2, ":")) && uf("canon", n3) == uf("canon", n1)
+// @   inline-calls
+// @   ensures [last-subfield-unset-reads-notset] g.IsNotSet && g.Value == ""
+func lemma_resp_unset_last_subfield(r *http.Response, n1, n2, n3 string, v *value.String) (g *value.String) {
+	setResponseHeaderValue(r, n1, v)
+	unsetResponseHeaderValue(r, n2)
+	g = getResponseHeaderValue(r, n3)
 	return
 }
